@@ -401,7 +401,7 @@ func runC12(p *core.Prog, r *core.Report) {
 			for _, ref := range *rem.Referrers() {
 				if cmp, ok := ref.(*ssa.BinOp); ok && cmp.Op == token.NEQ && isZeroConst(cmp.Y) {
 					for _, rr := range *cmp.Referrers() {
-						if ifi, ok := rr.(*ssa.If); ok && ifi.Block().Succs[0] == add.Block() {
+						if ifi, ok := rr.(*ssa.If); ok && ifi.Block().Succs[0] == add.Block() && len(add.Block().Preds) == 1 {
 							okCeil = true
 						}
 					}
